@@ -151,7 +151,7 @@ theorem treeOk_of_root {t : Tree K V} {hole : Option Nat} (hok : TreeOk' hole t)
     rw [he] at h0
     refine NodeOcc.of_par h0.par h0.1 ?_
     simp only [shallow_height]
-    rw [← count_eq]
+    rw [← count_eqD]
     exact hr'
   · rw [minOf'_of_ne _ h1] at h0
     exact h0
